@@ -358,8 +358,12 @@ impl EigenTrustEngine {
         }
 
         // Apply time decay
-        let last_update = self.last_update.read().await;
-        let elapsed = last_update.elapsed().as_secs() as f64 / 3600.0; // hours
+        // The read guard must be released before `last_update` is written below:
+        // holding it made every call wait on itself until the caller's timeout fired.
+        let elapsed = {
+            let last_update = self.last_update.read().await;
+            last_update.elapsed().as_secs() as f64 / 3600.0 // hours
+        };
 
         for (_, trust) in trust_vector.iter_mut() {
             *trust *= self.decay_rate.powf(elapsed);
